@@ -712,6 +712,7 @@ def c11(run):
     r_cnt.run_dequeue(run, P)            # a Reset (or ACK) that retires a Confirmable notification gives the NSTART slot back: otherwise every sixth notification is postponed for ever
     from rules import r_misc12
     run.require_count(r_misc12.run_request_flag(run, P) >= 1 or run.cfg != 'base', 'R-LOST-STORE (request flag): no test-and-clear of a request flag found (expected observe_pending)')
+    r_misc12.run_error_class_agrees(run, P)   # the observer is deleted for exactly the error classes for which the reply loses its Observe option
     from rules import r_pairargs
     r_pairargs.run_token_identity(run, P)
     from rules import r_finderkey
